@@ -777,6 +777,41 @@ pub fn run(args: &Args) {
 		cx.case(format!("C15 p_inclp {sp} {sq}"), true);
 		cx.case(format!("C15 p_eq {sp} {sq}"), true);
 		cx.case(format!("C15 p_eq {sp} {sp}"), true);
+		{
+			// the same sets, other encodings of the empty levels (constructor form, set_empty form, one axis or both inverted)
+			let mut q2 = p.clone();
+			for l in 0..32usize {
+				if den(&q2.level_bbox[l]).is_none() {
+					let m = ((1u64 << l) - 1) as u32;
+					q2.level_bbox[l] = match rng.below(6) {
+						0 => raw(l as u8, m.wrapping_add(1), m.wrapping_add(1), 0, 0),
+						1 => raw(l as u8, 1, 1, 0, 0),
+						2 => raw(l as u8, 1, 0, 0, m),         // x inverted only
+						3 => raw(l as u8, 0, 1, m, 0),         // y inverted only
+						4 => raw(l as u8, rng.range(1, 9) as u32, rng.below(3) as u32, 0, rng.below(3) as u32),
+						_ => q2.level_bbox[l].clone(),
+					};
+				}
+			}
+			let sq2 = show_pyr(&q2);
+			cx.case(format!("C15 p_eq {sp} {sq2}"), true);
+			cx.case(format!("C15 p_eq {sq2} {sp}"), true);
+			cx.case(format!("C15 p_info {sq2}"), true);
+			// and empties as operations leave them: zoom limits and intersections with disjoint boxes
+			let mut a = TileBBoxPyramid::new_full(rng.range(2, 8) as u8);
+			let zcut = rng.below(5) as u8;
+			let mut b = a.clone();
+			a.set_zoom_max(zcut);
+			for l in (zcut as usize + 1)..32 { b.level_bbox[l] = TileBBox::new_empty(l as u8).unwrap(); }
+			cx.case(format!("C15 p_eq {} {}", show_pyr(&a), show_pyr(&b)), true);
+			let mut c = TileBBoxPyramid::new_full(5);
+			let mut d = c.clone();
+			let lv = rng.range(1, 5) as usize;
+			let _ = c.level_bbox[lv].intersect_bbox(&raw(lv as u8, 0, 0, 0, 0));
+			let _ = c.level_bbox[lv].intersect_bbox(&raw(lv as u8, 1, 0, 1, 0)); // disjoint on x only: leaves min > max on one axis
+			d.level_bbox[lv].set_empty();
+			cx.case(format!("C15 p_eq {} {}", show_pyr(&c), show_pyr(&d)), true);
+		}
 		cx.case(format!("C15 p_info {sp}"), true);
 		let l = rng.below(32) as u8;
 		let b = rand_box(&mut rng, l);
